@@ -34,6 +34,8 @@ Property theorems only (helper lemmas: `VncModel/Wire/*Lemmas.lean`).
                                the excluded region (≥ 65535 rectangles) really fails — finding
                                `c03-nrects-16bit`, replayed on the real code (corpus/C03/known-nrects-*).
 * `lengths_match*`             "every length field matches the bytes that follow": parse ∘ serialise = id.
+* `compact_length_roundtrip`   Tight's 1–3 byte compact length: writer (thresholds from the C text) and strict
+                               parser agree for every length < 2^22.
 * `rects_inside_*`             emitted rectangles lie inside the region rectangle they come from, hence
                                inside the (announced) framebuffer when the region does.
 * `only_advertised_current`    every capability flag set after any SetEncodings history is justified by the
@@ -294,6 +296,17 @@ example : ∃ ms : List ServerMsg, ms.length = 2 ∧ ∀ m ∈ ms, MsgWF ⟨2, f
     · exact ⟨w2, by decide⟩
     · exact ⟨w3, by decide⟩
   · exact MsgWF.cutText _ _ _ rfl (by decide) (by decide)
+
+/-- **Tight compact length round trip** over every length the writer can produce (< 2^22): what
+`rfbSendCompressedDataTight` writes (1–3 bytes; thresholds and masks read from the C text by T0) is read
+back by the strict parser as the same length and the same number of length bytes — in particular at
+127/128 and 16383/16384. -/
+theorem compact_length_roundtrip (n : Nat) (hn : n < 4194304) (rest : Bytes) :
+    compactLen (encCompact n ++ rest) = some (n, (encCompact n).length) :=
+  compactLen_encCompact n hn rest
+
+example : encCompact 16384 = [128, 128, 1] ∧ encCompact 16383 = [255, 127] ∧ encCompact 127 = [127] ∧
+    encCompact 128 = [128, 1] := by decide
 
 /-! ## rectangles stay inside -/
 
